@@ -351,7 +351,12 @@ impl World {
                 Ok(all) => {
                     let got: BTreeMap<String, u128> = all.iter().filter(|x| !x.amount.amount.is_zero()).map(|x| (x.validator.clone(), x.amount.amount.u128())).collect();
                     if got != sum_pairs {
-                        out.push(v("C14", "all-delegations", format!("step {}: AllDelegations(delegator{}) = {:?} but the per-validator queries give {:?}", step, d, got, sum_pairs)));
+                        let mut viol = v("C14", "all-delegations", format!("step {}: AllDelegations(delegator{}) = {:?} but the per-validator queries give {:?}", step, d, got, sum_pairs));
+                        if !self.slashed_positive.is_empty() {
+                            // what a delegation is after a slash is C16's as well
+                            viol.owners.push("C16");
+                        }
+                        out.push(viol);
                         return;
                     }
                 }
